@@ -580,7 +580,25 @@ func (r *RowCache) uuidsByConditionsAsIndexes(conditions []ovsdb.Condition, nati
 			return nil, err
 		}
 		for _, conditions := range conditions {
-			err := info.SetField(conditions.column, conditions.nativeValue)
+			value := conditions.nativeValue
+			if len(conditions.keys) > 0 {
+				// several conditions can each give a key of the same map column:
+				// the model holds them all
+				if current, err := info.FieldByColumn(conditions.column); err == nil {
+					cv, nv := reflect.ValueOf(current), reflect.ValueOf(value)
+					if cv.Kind() == reflect.Map && cv.Len() > 0 && cv.Type() == nv.Type() {
+						merged := reflect.MakeMapWithSize(nv.Type(), cv.Len()+nv.Len())
+						for _, k := range cv.MapKeys() {
+							merged.SetMapIndex(k, cv.MapIndex(k))
+						}
+						for _, k := range nv.MapKeys() {
+							merged.SetMapIndex(k, nv.MapIndex(k))
+						}
+						value = merged.Interface()
+					}
+				}
+			}
+			err := info.SetField(conditions.column, value)
 			if err != nil {
 				return nil, err
 			}
